@@ -533,9 +533,9 @@ namespace occa {
       // 1 + ++ x
       //     ^ check left
       if (prevTokenIsOp != nextTokenIsOp) {
-        return (onlyUnary
-                ? prevTokenIsOp
-                : nextTokenIsOp);
+        // + - * & after a value are binary no matter what follows: 1 + -2, a * *b
+        //   (at this point prevTokenIsOp is only true for ++ and --)
+        return (onlyUnary && prevTokenIsOp);
       }
       // y ++ x (Unable to apply operator)
       // y + x
